@@ -19,8 +19,19 @@ Definition matching_std (m : matching) : option str :=
   end.
 Definition conn_std (c : conn) : str := match c with And => L "AND" | Or => L "OR" | Xor => L "XOR" end.
 
-Definition leaf_of_value (w : wcls) (v : value) : option sx :=
+(* a number written as text (float, Decimal): digits with at most a decimal point; a leading minus sign is a unary minus *)
+Definition is_plain_num (s : str) : bool :=
+  match s with [] => false | _ => forallb (fun c => ((48 <=? c) && (c <=? 57)) || (c =? 46)) s end.
+Definition num_text_leaf (s : str) : option sx :=
+  match s with
+  | 45 :: r => if is_plain_num r then Some (SNeg (SAtom [TNum r])) else None
+  | _ => if is_plain_num s then Some (SAtom [TNum s]) else None
+  end.
+
+Fixpoint leaf_of_value (w : wcls) (v : value) : option sx :=
   match v with
+  | VNumText s => num_text_leaf s
+  | VEnum v' => leaf_of_value w v'
   | VInt z => Some (match z with
                     | Zneg p => SNeg (SAtom [TNum (N_to_str (Npos p))])
                     | _ => SAtom [TNum (Z_to_str z)]
@@ -71,6 +82,7 @@ Fixpoint tree_of (t : term) : option sx :=
   | TFunc name args SpNone NoT distinct NoT NoOver false None _ =>
       option_map (SCall (map upper name) distinct) (trees_of args)
   | TTuple (TCons x TNil) _ => tree_of x                      (* Bracket: a parenthesised operand *)
+  | TLiteral raw _ => num_text_leaf raw                        (* LiteralValue('-1'): raw text that is a number *)
   | _ => None
   end
 with trees_of (l : terms) : option (list sx) :=
